@@ -9,6 +9,7 @@ from vf.vloop import run_virtual, HangDetected
 
 ID = "C04"
 LEVEL = "exploration"
+LOGLEVELS = ["default", "debug"]   # every case also runs with the root logger at DEBUG (as --verbose does)
 SHARDS = {"quick": 4, "thorough": 16}
 BUDGET_S = {"quick": 90.0, "thorough": 600.0}
 TECHNIQUE = ("runtime monitoring: observed initialize answers and recorded sessions of the real ProtocolHandler for every "
@@ -105,6 +106,17 @@ def run(ctx):
                     outs.append((case, resp, sid, sess, None))
                 except Exception as e:  # noqa
                     outs.append((case, None, None, None, e))
+            if k % 4 == 0:
+                # the same request again, this time arriving on a live session (re-initialize) and on a stale one
+                live = h.session_manager.create_session({"name": "earlier"}, "2025-03-26")
+                for label, sess_id in (("live_session", live), ("stale_session", "no-such-session")):
+                    msg = parse_message({"jsonrpc": "2.0", "id": k, "method": "initialize", "params": params})
+                    try:
+                        resp, sid = await h.handle_message(msg, session_id=sess_id)
+                        sess = h.session_manager.get_session(sid) if sid else None
+                        outs.append((dict(case, via=label), resp, sid, sess, None))
+                    except Exception as e:  # noqa
+                        outs.append((dict(case, via=label), None, None, None, e))
             if k % 500 == 0:
                 h.session_manager.clear_all_sessions()
         return outs
